@@ -251,6 +251,11 @@ def ecall_matrix():
             L.append("    mv a0, t0")
         L += ["    li a7, 93", "    ecall"]
         out.append("\n".join(L) + "\n")
+    # calls the analyzer's table does not list (floating-point operands) and numbers nobody documents:
+    # whatever was known about a0 / a1 before must not be claimed after (F-50)
+    for num in sorted(spec_ecalls.UNLISTED) + [99, 2000]:
+        out.append(f"main:\n    li a0, 10\n    li a1, 93\n    li a7, {num}\n    ecall\n    mv t0, a0\n    mv t1, a1\n"
+                   "    mv a7, a0\n    ecall\n    li a7, 1\n    ecall\n    li a7, 93\n    ecall\n")
     return out
 
 
@@ -305,6 +310,87 @@ def arith_matrix(rng, per_op=3):
             out.append(f"main:\n    li t0, {x}\n    li t1, {y}\n    {op} t2, t0, t1\n    mv a0, t2\n"
                        f"    addi t3, t2, 4\n    li a7, 1\n    ecall\n    mv a0, t3\n    li a7, 1\n    ecall\n"
                        f"    li a7, 10\n    ecall\n")
+    return out
+
+
+def tail_jump_programs(rng):
+    """A function that ends in (or contains) a plain jump to another called function - a tail call:
+    the callee's instructions are reachable from the jumping function, so they belong to it too (and
+    the overlap is reported); when the jump is the function's only way out, the callee's return is
+    the one it reaches."""
+    out = []
+    for how in ("j fn_b", "jal x0, fn_b", "jal zero, fn_b", "beq x0, x0, fn_b", "beqz zero, fn_b"):
+        only = rng.random() < 0.5
+        L = ["main:", "    li a0, 1", "    jal fn_a", "    jal fn_b", "    li a7, 10", "    ecall", "fn_a:", "    addi a0, a0, 1"]
+        if not only:
+            L += ["    beqz a0, a_out"]
+        L += [f"    {how}"]
+        if not only:
+            L += ["a_out:", "    ret"]
+        L += ["fn_b:", "    addi a0, a0, 2", "    ret"]
+        out.append("\n".join(L) + "\n")
+    return out
+
+
+def exit_then_loop_programs(rng):
+    """A loop written right behind an exit ecall: until the edge out of the exit is cut, the loop head
+    sees the exit's a7 as well, so the service number of an ecall inside the loop (set before the
+    branch that skips the exit) is unknown in the first value run and known in the second; constants
+    in a0 / a1 are carried around the loop and used after it."""
+    out = []
+    for _ in range(4):
+        svc = rng.choice([1, 34, 36, 11])
+        carried = rng.choice(["a1", "a2", "t3"])
+        lim = rng.choice([4, 11, 1])
+        ex = rng.choice([10, 93])
+        L = ["main:", "    li a7, 5", "    ecall", "    mv t0, a0", f"    li {carried}, {lim}", "    li a0, 0", f"    li a7, {svc}",
+             "    bne t0, zero, loop", f"    li a7, {ex}", "    ecall", "loop:", "    ecall", "    addi a0, a0, 1",
+             f"    blt a0, {carried}, loop", f"    mv a7, {carried}", "    ecall", "    li a7, 10", "    ecall"]
+        out.append("\n".join(L) + "\n")
+    return out
+
+
+def alias_base_programs(rng):
+    """Loads through a register that still holds its *entry* value but is not the stack pointer (an
+    untouched saved register, ra, a copy of one, gp), at offsets that equal the entry-relative
+    offsets of tracked stack slots: what is known about the slot `entry sp - 4` says nothing about
+    the word at `entry s1 - 4`."""
+    out = []
+    for base in ("s1", "s4", "s11", "ra", "gp", "copy"):
+        frame = rng.choice([16, 32])
+        v = rng.choice([1, 10, 93, 7])
+        b = "t2" if base == "copy" else base
+        L = ["main:", "    li a0, 3", "    jal helper", "    mv a0, a0", "    li a7, 10", "    ecall", "helper:",
+             f"    addi sp, sp, -{frame}", f"    sw ra, {frame - 4}(sp)", f"    li t0, {v}", f"    sw t0, {frame - 8}(sp)"]
+        if base == "copy":
+            L.append(f"    mv t2, {rng.choice(['s2', 's7'])}")
+        L += [f"    lw t1, -4({b})", f"    lw t3, -8({b})", "    add t4, t1, t3", "    mv a7, t3", "    mv t5, t1",
+              f"    lw t6, {frame - 8}(sp)", "    add a0, t4, t6", f"    lw ra, {frame - 4}(sp)", f"    addi sp, sp, {frame}", "    ret"]
+        out.append("\n".join(L) + "\n")
+    # the same in main, whose frame is relative to the program's entry sp
+    out.append("main:\n    addi sp, sp, -16\n    li t0, 10\n    sw t0, 12(sp)\n    lw t1, -4(s3)\n    mv a7, t1\n    mv t2, a7\n"
+               "    lw a7, 12(sp)\n    addi sp, sp, 16\n    ecall\n")
+    return out
+
+
+def fold_grid_programs():
+    """Every register-register and register-immediate operator the assembler knows (RV64 `w` forms
+    included) on ALL pairs of edge operands - one program per operator: the constant folder must
+    not abort on any of them (MIN / -1 and MIN % -1, division by zero, shifts by 32 and more)."""
+    import asm
+    out = []
+    for op in asm.ARITH:
+        L = ["main:"]
+        for x in ARITH_EDGE:
+            for y in ARITH_EDGE:
+                L += [f"    li t0, {x}", f"    li t1, {y}", f"    {op} t2, t0, t1", "    mv a0, t2"]
+        out.append("\n".join(L + ["    li a7, 10", "    ecall"]) + "\n")
+    for op in asm.IARITH:
+        L = ["main:"]
+        for x in ARITH_EDGE:
+            for imm in (-2048, -1, 0, 1, 31, 32, 63, 2047):
+                L += [f"    li t0, {x}", f"    {op} t2, t0, {imm}", "    mv a0, t2"]
+        out.append("\n".join(L + ["    li a7, 10", "    ecall"]) + "\n")
     return out
 
 
@@ -381,7 +467,7 @@ def dead_chain_programs(rng):
 
 
 def gen_programs(rng, n, sloppy_choices=(0, 0.1, 0.3), multi=0.15):
-    out = list(CORPUS) + branch_matrix() + ecall_matrix() + arith_matrix(rng) + alloca_programs(rng) + handler_layouts(rng) + early_out_programs(rng) + entry_by_jump_programs(rng) + [long_chain_program(rng), slow_convergence_program(rng), slow_convergence_program(rng)] + label_then_directive_programs(rng) + exit_in_function_programs(rng) + dead_chain_programs(rng)
+    out = list(CORPUS) + branch_matrix() + ecall_matrix() + arith_matrix(rng) + alloca_programs(rng) + handler_layouts(rng) + early_out_programs(rng) + entry_by_jump_programs(rng) + [long_chain_program(rng), slow_convergence_program(rng), slow_convergence_program(rng)] + label_then_directive_programs(rng) + exit_in_function_programs(rng) + dead_chain_programs(rng) + alias_base_programs(rng) + exit_then_loop_programs(rng) + tail_jump_programs(rng)
     for _ in range(max(4, n // 10)):
         out.append(handler_program(rng))
         out.append(backward_layout(rng))
